@@ -209,6 +209,13 @@ class Ctx:
         self.obligation("Print Assumptions: every theorem of %s closed under the global context (or std-lib axioms only)" % module_rel, allowed)
         if not allowed:
             return False, "unexpected assumptions: %r" % ax
+        if self.tier == "thorough":
+            # the independent checker re-checks the compiled theory of this property and everything it depends on
+            rc, out = sh("coqchk -silent -o -Q model NM -Q gen NG -Q proofs NP -Q props NPR NPR.%s" % module_name, cwd=COQ, timeout=3000)
+            clean = rc == 0 and "Axioms: <none>" in out and "type-in-type: <none>" in out and "unsafe (co)fixpoints: <none>" in out and "positivity is assumed: <none>" in out
+            self.obligation("coqchk re-checks %s and its dependencies: no axioms, no type-in-type, no unsafe fixpoints, no assumed positivity" % module_rel, clean)
+            if not clean:
+                return False, "coqchk:\n" + out[-2000:]
         return True, log
 
     # ---------------------------------------------------------------- bookkeeping
